@@ -46,7 +46,8 @@ def table_invariant(chk):
 
 def run(chk):
     chk.registry = REG
-    chk.explanation = ('P: language of every lexical regex == specification grammar (type names, dictionary keys, hex, selectors, 15 hash value rules; two inclusion '
+    chk.explanation = ('P: EnumProperty / HexProperty / FloatProperty.clean accept exactly the specification-valid values (iff), DictionaryProperty.clean key rules per spec version, '
+                       'ExtensionsProperty.clean (strict refusal and custom flag over all entries); language of every lexical regex == specification grammar (type names, dictionary keys, hex, selectors, 15 hash value rules; two inclusion '
                        'queries each, witnesses are concrete strings); _validate_type and IntegerProperty.clean accept exactly the specification-valid values; ten '
                        'timestamp-order co-constraint overrides (normal return => constraint; ValueError only when violated); the three inter-property helpers every per-type '
                        'constraint is built from (_check_mutually_exclusive_properties, _check_at_least_one_property, _check_properties_dependency: error iff the stated '
@@ -59,7 +60,8 @@ def run(chk):
     chk.trust('spec/tables_v20.json, spec/tables_v21.json, spec/lexical.py and vf/tables.py COCONSTRAINTS as the specification model (bootstrapped from the tree after the fix commits, deviations known at build time kept as findings)')
     chk.assume('pattern validity is delegated to stix2patterns (assumed)', 'custom property names are checked for their first character only: known finding (reachable only with customisation allowed)')
     lexical_part(chk, 'C02')
-    cs = [K.validate_type_contract(), K.integer_clean_contract(), K.hashes_clean_contract(), K.list_clean_contract(), K.reference_clean_contract()] + [K.order_contract(*row) for row in K.ORDER_TABLE] + KC.all_contracts()
+    cs = [K.validate_type_contract(), K.integer_clean_contract(), K.hashes_clean_contract(), K.list_clean_contract(), K.reference_clean_contract()] + [K.order_contract(*row) for row in K.ORDER_TABLE] + KC.all_contracts() + \
+         [K.enum_clean_contract(), K.hex_clean_contract(), K.dictionary_clean_contract(), K.float_clean_contract(), K.extensions_clean_contract()]
     for c in cs:
         chk.prove(c); chk.canary(c)
     from vf.callsites import purity_obligations
